@@ -3,6 +3,7 @@
   Only property statements live here; lemmas are in ErgoProofs/Lemmas.
 -/
 import ErgoProofs.Lemmas.ReachInv
+import ErgoProofs.Lemmas.DiskInv
 namespace Ergo
 
 /-- the transition table and claim rule the code uses (regenerated from model.go on every run) are the documented ones -/
@@ -51,5 +52,13 @@ theorem C06_rejected_untouched (log : List Event) (env : Env) (req : Request) (e
 example : ∃ t : Task, TaskInv t ∧ t.st = .doing ∧ t.claimedBy = "a" :=
   ⟨{ (freshTask false "T" "u" "" "t" "" 1) with st := .doing, claimedBy := "a" }, by
     refine ⟨⟨fun h => by simp [freshTask] at h, fun _ => ⟨rfl, rfl⟩⟩, rfl, rfl⟩⟩
+
+/-- the same about what is **on disk**: after any command history (ids non-empty, clock readings positive, non-decreasing and before year
+    10000, lines shorter than the reader's limit) the bytes of `.ergo/plans.jsonl` read back — with ergo's real line format — to a log that
+    replays to a graph in which every item obeys the state and claim rules -/
+theorem C06_inv_holds_of_the_bytes_on_disk {limit : Nat} {log : List Event} {f : Storage.Bytes} (h : Codec.DiskReach limit log f) :
+    ∃ g, Storage.readEvents Codec.classifyLine limit f = .ok log ∧ replay log = .ok g ∧ Inv06 g := by
+  obtain ⟨g, hf, hr, hinv⟩ := Codec.disk_allInv h
+  exact ⟨g, hf, hr, hinv.i06⟩
 
 end Ergo
